@@ -33,7 +33,7 @@ RULE = ('histories of set_channel / set_measurement / rm_channel / register_prog
         'non-callable callback) / remove_program / clear_programs / arm_program / run_program on a real HardwareSetup '
         'with 2-3 DummyAWGs (1-4 channels, 0-3 markers) and 2 DummyDACs; wirings with several outputs per name and '
         'several names per output/mask; programs are real Loops (leaf or two-leaf sequence with repetition) over '
-        'constant waveforms.  Streams: guard-respecting histories (no re-wiring of used names, updates keep the device '
+        'constant waveforms.  Streams: scenario histories (names spread over all devices, program operations only), guard-respecting histories (no re-wiring of used names, updates keep the device '
         'set), free histories (everything), malformed arguments, targeted defect shapes; thorough adds all histories of '
         'length <= 3 over a fixed alphabet after a fixed wiring.  Non-trivial = at least one registration returned '
         'normally and one later operation touched devices; distinct = canonical JSON of the case.')
@@ -41,8 +41,9 @@ TRUSTED = [
     'Coq 8.16.1 kernel + vm_compute (no native_compute)',
     'harness: generators, observation of the dummy devices through their attributes (_programs, _armed, '
     '_measurement_windows, armed_program), HardwareSetup.registered_channels(), ._measurement_map, .registered_programs',
-    'iteration order of Python sets (defined_channels, sets of hardware channels) is observed, not modelled: the '
-    'channel order and the AWG upload order of each register_program call are inputs of the model step',
+    'iteration order of Python sets / dicts inside register_program is not modelled: the channel order, measurement '
+    'order and AWG upload order of each call are inputs of the model step; the harness picks an order that explains the '
+    'recorded outcome (winner of several names wired to one output / mask), upload order is observed by wrapping upload',
     'program.get_measurement_windows() is taken as "the program\'s own windows" (that function is property C02)',
     'Python semantics of dict/set/list indexing as mirrored in coq/C18/Model.v',
 ]
@@ -82,6 +83,55 @@ def _mk_program(pd):
 def _wins(bl):
     b, l = bl
     return [[vlib.frac_json(x) for x in b], [vlib.frac_json(x) for x in l]]
+
+
+def consistent_order(base, before):
+    """stable topological order of `base` under the constraints {(x, y): x must come before y}; None if cyclic"""
+    rest, out = list(base), []
+    while rest:
+        for x in rest:
+            if not any((y, x) in before for y in rest if y != x):
+                out.append(x)
+                rest.remove(x)
+                break
+        else:
+            return None
+    return out
+
+
+def resolve_hints(case, hint, st, name):
+    """Which of several program channels wired to one output (several measurements wired to one mask) ends up in the
+    uploaded tuple depends on set / dict iteration order inside register_program.  That order is not part of the
+    property; the model takes it as an input, chosen here so that it explains the recorded outcome (if any order does)."""
+    dims, masks = case['awgs'], case['masks']
+    before = set()
+    for a, ast in enumerate(st['awgs']):
+        e = ast['progs'].get(name)
+        if e is None:
+            continue
+        for marker, tup in ((False, e['ch']), (True, e['mk'])):
+            for i, w in enumerate(tup):
+                if w is None:
+                    continue
+                for c in hint['chan_order']:
+                    if c != w and any(S.at_pos(dims, s, a, marker, i) for s in st['chmap'].get(c, [])):
+                        before.add((c, w))       # the winner is written last
+    order = consistent_order(hint['chan_order'], before)
+    if order is not None:
+        hint['chan_order'] = order
+    before = set()
+    own = {m[0]: m for m in hint['meas']}
+    for d, dst in enumerate(st['dacs']):
+        for mk, w in dst['wins'].get(name, {}).items():
+            cands = [n for n in own if any(masks[i][0] == d and masks[i][1] == mk for i in st['mmap'].get(n, []))]
+            winners = [n for n in cands if S.wins_eq(own[n][1:], w)]
+            if len(winners) >= 1:
+                for n in cands:
+                    if n not in winners:
+                        before.add((winners[0], n))   # the first measurement in dict order wins
+    names = consistent_order([m[0] for m in hint['meas']], before)
+    if names is not None:
+        hint['meas'] = [own[n] for n in names]
 
 
 def run_impl(case):
@@ -261,6 +311,8 @@ def _run(case):
                 raise
         st = snapshot(err)
         if hint is not None:
+            if err is None:
+                resolve_hints(case, hint, st, op['name'])
             st['hint'] = hint
         steps.append(st)
     return {'steps': steps}
@@ -603,6 +655,38 @@ def rnd_history(rng, n_ops, clean, malformed_rate=0.0):
             'awgs': awgs, 'ndacs': 2, 'masks': masks, 'ops': t.ops}
 
 
+def scenario_history(rng):
+    """fixed-shape wiring that spreads names over all devices, then only program operations (no re-wiring):
+    several programs on different device subsets, re-registration onto other subsets, arm / run / remove / clear"""
+    awgs = [[2, 1], [rng.randint(1, 3), rng.randint(0, 2)], [2, 0]]
+    masks = [[0, 0], [1, 0], [0, 1], [1, 1]]
+    t = Tracker(rng, awgs, masks, clean=False)
+    wiring = [
+        (0, [[0, 0, False, 0]]), (1, [[1, 0, False, 1]]), (2, [[2, 1, False, 2], [0, 0, True, 0]]),
+        (3, [[1, awgs[1][0] - 1, False, 0] if awgs[1][0] > 1 else [0, 1, False, 0], [2, 0, False, 3]]),
+    ]
+    for cid, chs in wiring:
+        t.ops.append({'op': 'set_channel', 'id': cid, 'arg': {'k': 'many', 'chs': chs}, 'allow': False})
+        t.chans[cid] = chs
+    for name, ms in [(0, [0]), (1, [1]), (2, [2, 3])]:
+        t.ops.append({'op': 'set_measurement', 'name': name, 'arg': {'k': 'many', 'masks': ms}, 'allow': False})
+        t.meas[name] = ms
+    n = rng.randint(6, 12)
+    while len(t.ops) < 7 + n:
+        r = rng.random()
+        if r < 0.45 or not t.regs:
+            t.op_register()
+        elif r < 0.70:
+            t.op_named('arm')
+        elif r < 0.80:
+            t.op_named('run')
+        elif r < 0.95:
+            t.op_named('remove')
+        else:
+            t.op_clear()
+    return {'kind': 'hist', 'stream': 'scenario', 'awgs': awgs, 'ndacs': 2, 'masks': masks, 'ops': t.ops}
+
+
 def targeted(rng):
     """shapes of the defects read in the code: update that moves a program, re-wiring under a registered program,
     removal/clear of an armed program, overwrite failing half-way"""
@@ -679,6 +763,8 @@ def exhaustive(max_len):
 def gen_cases(rng, tier, ctx):
     cases = targeted(rng)
     n = {'quick': 1, 'thorough': 12}[tier]
+    for _ in range(120 * n):
+        cases.append(scenario_history(rng))
     for _ in range(150 * n):
         cases.append(rnd_history(rng, rng.randint(6, 15), clean=True))
     for _ in range(110 * n):
@@ -689,6 +775,7 @@ def gen_cases(rng, tier, ctx):
         ex = exhaustive(2)
     else:
         ex = exhaustive(3)
+        ex += [c for c in exhaustive(4)[len(ex):] if rng.random() < 0.25]      # length-4 histories, sampled 1:4
         for _ in range(600):
             cases.append(rnd_history(rng, rng.randint(16, 28), clean=rng.random() < 0.6))
     cases.extend(ex)
@@ -769,7 +856,8 @@ def search_failing(ctx, broken):
     rng = random.Random(12345)
     known, _ = vlib.load_known_findings()
     known = known.get(PID, {})
-    pool = targeted(rng) + exhaustive(2) + [rnd_history(rng, rng.randint(6, 15), clean=True) for _ in range(400)] + \
+    pool = targeted(rng) + exhaustive(2) + [scenario_history(rng) for _ in range(300)] + \
+        [rnd_history(rng, rng.randint(6, 15), clean=True) for _ in range(400)] + \
         [rnd_history(rng, rng.randint(6, 15), clean=False) for _ in range(200)]
     for c in pool:
         o = run_impl(c)
@@ -783,11 +871,19 @@ def search_failing(ctx, broken):
 
 
 MANIFEST = {
-    'level_text': 'Proof over an executable model of HardwareSetup + DummyAWG/DummyDAC (state machine over arbitrary '
-                  'finite histories), tied to the code by a step-by-step correspondence check on real objects; see '
-                  'notes/C18.md for the exact list of theorems and their status.',
-    'level_note': 'Trusted: Coq kernel, harness, observed set-iteration orders (hints), DummyAWG/DummyDAC stand in for '
-                  'real drivers.  Known defects of the unchanged code are listed as findings with refutation theorems.',
+    'level_text': 'Proof (Coq, unbounded histories) of the generator side of the routing invariant for an executable model '
+                  'of HardwareSetup + DummyAWG/DummyDAC: under guard_C18_rewire (no re-wiring of a name used by a '
+                  'registered program) every AWG holds exactly the registered programs that use it, with the last '
+                  'registered program object and every channel id / voltage transformation at the wired output; '
+                  'participation records are exact; arm arms participants and disarms the other wired AWGs; removed / '
+                  'cleared programs are gone; the unguarded invariant is refuted by a 3-call witness (known finding '
+                  'C18-rewire-stale).  The acquisition-device (DAC / windows) side is stated '
+                  '(C18_routing_invariant_dac_statement) but NOT proved: it is only checked on the implementation.  Model '
+                  'tied to the code by a step-by-step correspondence check on the real objects after every call.',
+    'level_note': 'Trusted: Coq kernel, harness, DummyAWG/DummyDAC as stand-ins for real drivers, set/dict iteration '
+                  'order inside register_program is an input of the model chosen to explain the observed outcome, '
+                  'Loop.get_measurement_windows as the program\'s own windows.  Two defects of the unchanged code were '
+                  'repaired (fix commits 825add7, a019130); one is a listed known finding.',
     'technique': 'Coq invariant proof over operation histories + correspondence check on HardwareSetup with dummy devices',
     'design_ref': 'DESIGN.md §5 C18',
 }
